@@ -3,3 +3,6 @@ import GoBT.Basic.VarInt
 import GoBT.Tx.Wire
 import GoBT.Tx.WireLemmas
 import GoBT.Props.C01
+import GoBT.Sighash.Model
+import GoBT.Props.C02
+import GoBT.Props.C03
